@@ -614,20 +614,25 @@ func (s *simSource) Uint64() uint64 {
 	return s.inner.Uint64()
 }
 
-// NewRandSource replaces rand.NewSource: the seed argument (wall-clock derived
-// in the agent) is ignored; the stream comes from the run's choice stream.
+// NewRandSource replaces rand.NewSource.
 //go:norace
 func NewRandSource(seed int64) rand.Source {
 	if S == nil {
 		return rand.NewSource(seed)
 	}
-	a := uint64(Choose(1<<30, "rng-seed"))
-	// an honest source never equals another source of the same run, also when
-	// the choice stream is exhausted (replay of a minimised trace pads with 0)
-	var k uint64
+	// The stream is a function of the seed the agent passes (derived from its
+	// clock reads: equal seeds give equal streams, as with math/rand) and of a
+	// salt drawn once per run from the choice stream.
+	var salt uint64
 	sim := S
-	call(func() { sim.rngN++; k = sim.rngN })
-	a = Mix(a, k, 0x726e67)
+	call(func() {
+		if !sim.rngSalted {
+			sim.rngSalted = true
+			sim.rngSalt = uint64(sim.Ch.Choose(1<<30, "rng-salt"))
+		}
+		salt = sim.rngSalt
+	})
+	a := Mix(uint64(seed), salt, 0x726e67)
 	src := &simSource{mode: RandCfg.Mode, inner: rand.NewSource(int64(a>>1)).(rand.Source64), script: RandCfg.Script}
 	n := RandCfg.Cycle
 	if n <= 0 {
